@@ -11,8 +11,6 @@ mod c03;
 mod c09;
 #[cfg(all(kani, feature = "c10"))]
 mod c10;
-#[cfg(all(kani, feature = "c12"))]
-mod c12;
 #[cfg(all(kani, feature = "c13"))]
 mod c13;
 #[cfg(all(kani, feature = "c52"))]
